@@ -24,7 +24,7 @@ MANIFEST = {
             "r_range x bin_width/n_bins x periodic x opt x pair sets and compute_rdf_t; compute_drid x atom subsets "
             "(sorted, unsorted, bond-cutting); directors/nematic order x {chains, residues, explicit groups}; dipole "
             "moments, static dielectric, isothermal compressibility; the three Karplus J-couplings x coefficient sets. "
-            "Quick: 5 structures, reduced RDF/soft-min axes; thorough: all 9 structures and all axes. Oracle: the "
+            "Quick: 7 structures, reduced RDF/soft-min axes; thorough: all 11 structures, the hand-built system in the 6 cells of the shared cell menu (contacts), and all axes. Oracle: the "
             "documented closed form in float64 on the same float32 coordinates, masses and cell (minimum image by "
             "brute force over images); tolerance from a float32/float64 error model per quantity. Right level: the "
             "defects the property names (offset bookkeeping, bin conventions, normalisation) are functions of a few "
@@ -181,7 +181,7 @@ def _contacts_jobs(structs, quick):
     for s in structs:
         for scheme in SCHEMES:
             for spec in ("all+ign", "all-ign", "E1", "E2", "E3", "E4"):
-                for periodic in (True, False):
+                for periodic in ((True,) if s.startswith("pepc_") else (True, False)):
                     jobs.append(("contacts", s, dict(scheme=scheme, contacts=spec, periodic=periodic, betas=betas)))
     return jobs
 
@@ -313,7 +313,21 @@ def _contacts(job):
                     want = do.soft_min(sub.ravel(), beta)
                     tol = 8 * EPS32 * (sub.min() + Lsum) + 8 * EPS32 * want
                 got = float(dist[f, k])
-                r = R.cmp("contacts:%s:%s" % (scheme, tag), got, want, tol)
+                capdiff = any(tab["residues"][q]["name"] in do.CAPS and memb["lib"][q] != memb["strict"][q] for q in (ra, rb))
+                differs = (ms_a != ml_a or ms_b != ml_b) and ms_a and ms_b
+                want2 = None
+                if scheme.startswith("sidechain") and differs:
+                    sub2 = D[f][np.ix_(ms_a, ms_b)]
+                    want2 = sub2.min() if beta is None else do.soft_min(sub2.ravel(), beta)
+                if want2 is None:
+                    r = R.cmp("contacts:%s:%s" % (scheme, tag), got, want, tol)
+                else:           # two readings of "side chain": the margin statistic takes the better-matching one
+                    r = abs(got - want) / tol
+                    rb_ = min(r, abs(got - want2) / tol)
+                    R.evals += 1
+                    if rb_ <= 1.0:
+                        dk = "contacts:%s:%s" % (scheme, tag)
+                        R.ratio[dk] = max(R.ratio.get(dk, 0.0), rb_)
                 key = (k, ra, rb, f, tag, beta)
                 if sub.size >= 2:
                     R.nontriv.add(key)
@@ -321,20 +335,29 @@ def _contacts(job):
                     R.sample = dict(call="compute_contacts(%s, contacts=%s, scheme=%s, periodic=%s, soft_min_beta=%s)" % (
                         name, spec, scheme, periodic, beta), label=[ra, rb], frame=f, n_atom_pairs=int(sub.size),
                         got=got, oracle=float(want), tol=float(tol))
-                if r > 1.0:
+                generic = False
+                if want2 is None:
+                    generic = r > 1.0
+                else:
+                    # the two readings of "side chain" differ for this pair: the chemical one is right, the library
+                    # predicate (terminal OXT/H1-3 included) is the known defect; anything else is a bookkeeping error
+                    R.evals += 1
+                    if abs(got - want2) <= tol:
+                        pass
+                    elif r <= 1.0:
+                        if capdiff:
+                            R.excl("cap residue (ACE/NME/NH2) with atoms named H1-3: side-chain membership undocumented, either accepted")
+                        elif (ra, rb) not in term_seen:
+                            term_seen.add((ra, rb))
+                            R.viol("contacts|%s|value|terminal-backbone-atoms-OXT-H123-designated-as-sidechain" % scheme,
+                                   "pair %s frame %d: got %.7g = value with OXT/H1-3 counted as side chain; without them %.7g" % (
+                                       (ra, rb), f, got, want2))
+                    else:
+                        generic = True
+                if generic:
                     R.viol("contacts|%s|value|%s|label-does-not-index-its-value" % (scheme, tag),
                            "pair %s frame %d got %.7g oracle %.7g tol %.2g (n atom pairs %d)" % (
                                (ra, rb), f, got, want, tol, sub.size))
-                    continue
-                if scheme.startswith("sidechain") and (ms_a != ml_a or ms_b != ml_b) and ms_a and ms_b:
-                    sub2 = D[f][np.ix_(ms_a, ms_b)]
-                    want2 = sub2.min() if beta is None else do.soft_min(sub2.ravel(), beta)
-                    R.evals += 1
-                    if abs(got - want2) > tol and (ra, rb) not in term_seen:
-                        term_seen.add((ra, rb))
-                        R.viol("contacts|%s|value|terminal-backbone-atoms-OXT-H123-designated-as-sidechain" % scheme,
-                               "pair %s frame %d: got %.7g = value with OXT/H1-3 counted as side chain; without them %.7g" % (
-                                   (ra, rb), f, got, want2))
         # ---- squareform ------------------------------------------------------------------------------
         if len(got_pairs):
             cm = md.geometry.squareform(dist, pairs)
@@ -1015,7 +1038,10 @@ def _jobs(quick):
         structs = ["pep", "pep_tri", "pep_heavy", "frag_2EQQ", "frag_1vii"]
     else:
         structs = [s for s in ds.STRUCTS if not s.startswith("wat")]
-    cstructs = structs
+    cstructs = list(structs)
+    if not quick:
+        from vlib import grids
+        cstructs += ["pepc_" + c["name"] for c in grids.cell_menu(quick=True, unreduced=False)]
     jobs = _contacts_jobs(cstructs, quick)
     simple = structs + ["wat", "watc"]
     for s in simple:
@@ -1118,7 +1144,6 @@ def replay(ctx, rep):
     print("replay 1:", [s for s, _d in obs[0]][:6])
     print("replay 2:", [s for s, _d in obs[1]][:6])
     assert obs[0] == obs[1], "replay is not deterministic"
-    for s, d in obs[0]:
-        if s == rep.get("sig"):
-            print("  ", d[:400])
+    for s, d in [x for x in obs[0] if x[0] == rep.get("sig")][:3]:
+        print("  ", d[:400])
     return not any(s == rep.get("sig") for s, _d in obs[0])
